@@ -7,6 +7,7 @@ import math
 import struct
 
 from . import sym as S
+from . import fpsym as FS
 from .interp import (UNDEF, Unsupported, MemoryError_, Unwind, ProgramExit, PathEnd, K_INT, K_DOUBLE, K_PTR, SHIFT, Node, f2i, i2f)
 
 EXTERNAL_TYPEINFO_BASES = {
@@ -183,6 +184,10 @@ def install(it):
                 except (ValueError, OverflowError):
                     return math.nan
             if x is UNDEF: return UNDEF
+            if it.mode == 'fp':
+                f2 = {'sqrt': FS.fsqrt, 'fabs': FS.ffabs, 'floor': FS.ffloor, 'ceil': FS.fceil}.get(name)
+                if f2 is None: raise Unsupported('libm function %s on a bit-precise symbolic double' % name)
+                return f2(x)
             if symf is not None: return symf(it, x)
             return S.uf(name, x)
         return h
